@@ -180,6 +180,15 @@ def run(ck):
     ob("7:constants:masks=2^BITS-1", okc and mv == (1 << bv) - 1 and ms == (1 << bs) - 1, "MASK_VERSION=%s, MASK_SUBID=%s" % (mv, ms), "a mask is not 2^BITS-1 (MASK_VERSION=%s for %s bits, MASK_SUBID=%s for %s bits)" % (mv, bv, ms, bs))
     ob("7:constants:field-widths-fully-used", okc and bv == W["version"] and bs == W["sub_id"], "the masks cover the whole u16 fields, so every representable generation/sub-id is encodable", "the version/sub_id fields are wider than their masks: representable values are not encodable (BITS_VERSION=%s, BITS_SUBID=%s)" % (bv, bs))
     ck._obligations = obligations
+    # ---- 7b: two tokens are equal exactly when id, generation and sub-id are (the lifecycle set, and users, compare
+    # RegistrationTokens with ==): an equality that ignores the generation makes a stale token equal to the token of the
+    # slot's new occupant
+    token_equality_rules(ck, "6")
+    # ---- shared clauses demonstrated by seeding round 7 (the property broken from a distant module) --------------
+    from props import common as _c7
+    import importlib as _il
+    _m = lambda n: _il.import_module('props.' + n)
+    _c7.import_results(ck, _m("C14"), "5", "EventIterator", "6")  # sub-tokens belong to their source: attributed by (slot, generation), not by the full token
 
 
 def coverage_extra(checks):
@@ -192,3 +201,24 @@ def coverage_extra(checks):
         "checker_cmd": "cd /verif && ./check C20 --tier thorough",
         "trusted_base": ["rustc nightly MIR construction", "engine/driver fact serialiser", "engine/bits/bitdom.py transfer functions (constant shifts, masks, zero-extension/truncation, carry-free addition)", "64-bit usize"],
     }
+
+
+def token_equality_rules(ck, C):
+    f = ck.facts
+    te = ck.opt_body("<TokenInner as PartialEq>::eq")
+    re_ = ck.opt_body("<RegistrationToken as PartialEq>::eq")
+    if te is None or re_ is None:
+        ck.anchor_missing(C, "T6-provenance", "<TokenInner as PartialEq>::eq / <RegistrationToken as PartialEq>::eq")
+        return
+    adt = f.adts.get("token::TokenInner") or {}
+    fields = [fl["name"] for v in adt.get("variants", []) for fl in v.get("fields", [])]
+    cmp_fields = set()
+    for i, j, st in te.statements():
+        if st["s"] == "assign" and st["rv"]["r"] == "bin" and st["rv"]["op"] == "Eq" and not te.is_cleanup(i):
+            na = {e[1:] for r_, p_ in te.resolve(st["rv"]["a"]) for e in p_ if isinstance(e, str) and e.startswith(".")}
+            nb = {e[1:] for r_, p_ in te.resolve(st["rv"]["b"]) for e in p_ if isinstance(e, str) and e.startswith(".")}
+            cmp_fields |= (na & nb)
+    ck.verdict(bool(fields) and set(fields) <= cmp_fields, C, "T6-provenance", te, "TokenInner==compares-every-field", "TokenInner equality compares %s" % sorted(fields), "TokenInner equality does not compare all of %s (compared: %s): tokens of different generations / sub-sources are equal" % (sorted(fields), sorted(cmp_fields)), site=te.where())
+    inner_eq = [c for c in re_.calls() if c.name == "eq" and (c.trait or "").endswith("PartialEq") and not re_.is_cleanup(c.bb) and len(c.args) == 2 and all(T.path_has(re_, a, ".inner") for a in c.args) and c.self_ty is not None and "TokenInner" in f.types[f.peel_refs(c.self_ty)]["s"]]
+    ok = bool(inner_eq) and all(not c.dest["p"] and c.dest["l"] in T.ret_locals(re_) for c in inner_eq) and T.t2_all_exits(re_, [0], [c.bb for c in inner_eq]) is None
+    ck.verdict(ok, C, "T6-provenance", re_, "RegistrationToken==is-TokenInner==", "RegistrationToken equality is the equality of the whole inner token", "RegistrationToken equality is not the equality of its whole inner token (e.g. the slot index only): the token of a removed source equals the token of the source that reuses its slot, so bookkeeping keyed by == (the lifecycle set) confuses the two", site=re_.where())
